@@ -130,6 +130,7 @@ func checkC17(tier, replay string) int {
 	}
 	var hs []history
 	var replayRepl *[4]string
+	var replayCrash *c17CrashCase
 	if replay != "" {
 		var f struct {
 			Case history `json:"case"`
@@ -138,7 +139,12 @@ func checkC17(tier, replay string) int {
 			fmt.Println(err)
 			return 2
 		}
-		if len(f.Case.Faults) > 0 {
+		var mc struct {
+			Case c17CrashCase `json:"case"`
+		}
+		if readJSON(replay, &mc) == nil && mc.Case.MachineCrash {
+			replayCrash = &mc.Case
+		} else if len(f.Case.Faults) > 0 {
 			hs = []history{f.Case}
 		} else {
 			// a replacement history: {kind, hash_fault, tool_fault}
@@ -323,6 +329,15 @@ func checkC17(tier, replay string) int {
 			ctx.Sample(map[string]any{"history": h, "final_exit": final.Exit, "final_reused_cache": usedCache})
 		}
 	})
+	// Machine crashes (power loss, kernel panic) while or after the cache is written: what is on the disk afterwards is not what
+	// the process wrote but what had been made durable. See c17CrashStates.
+	if (replay == "" || replayCrash != nil) && haveStrace == nil {
+		cp, st, cr := c17CrashStates(ctx, scratch, map[string]string{"small": small, "big": big}, cold, newBin, runProf, replayCrash)
+		ctx.Cov["machine_crash:crash_points"] = cp
+		ctx.Cov["machine_crash:distinct_disk_states"] = st
+		ctx.Cov["machine_crash:recovery_runs"] = cr
+		atomic.AddInt64(&runs, cr)
+	}
 	// "for the exact binary": the file at the same path is replaced by a different binary (its disassembly is the other
 	// listing); the next run must profile the new one, also when hashing it hits a read error
 	{
